@@ -649,6 +649,7 @@ func runC18(c *Cfg) {
 	r := c.Rep
 	runSpecial(c, "C18", "default-post")
 	runSpecial(c, "C18", "zero-size-pointer-nodes")
+	runSpecial(c, "C18", "wildcard-lookalike-actions")
 	var cases []*ActCase
 	for _, post := range []string{"", "default", "custom", " ", "\t\n"} {
 		for _, routed := range []bool{false, true} {
